@@ -110,7 +110,7 @@ template <class G> struct Sweep {
           T L = X.log();
           M Mx = Mof(X);
           res = diff(expm_d<N>(hat(L)), Mx, lin);
-          if (th < 3.14f) { double dt = 0; for (int k = 0; k < D; ++k) { bool rot = B.rotdim == 3 ? (k >= B.rot_t0 && k < B.rot_t0 + 3) : (k == B.rot_t0); dt = std::max(dt, std::fabs((double)L.coeffs()(k) - (double)t.coeffs()(k)) / (rot ? 1.0 : lin)); } res = std::max(res, dt); }
+          if (th < 3.14f) { double dt = 0; for (int k = 0; k < D; ++k) { bool rot = B.rotdim == 3 ? (k >= B.rot_t0 && k < B.rot_t0 + 3) : (k == B.rot_t0); { double q_ = std::fabs((double)L.coeffs()(k) - (double)t.coeffs()(k)) / (rot ? 1.0 : lin); if (!(q_ == q_)) q_ = INFINITY; if (q_ > dt) dt = q_; } } res = std::max(res, dt); }
 #else
           res = diff(Mof(X), E, lin);
 #endif
